@@ -48,7 +48,7 @@ def boom(i, msg="bad"):
 '''
 KINDS = ['assign', 'emit', 'val', 'str', 'for', 'def', 'call', 'if', 'raise', 'raise_multi', 'semi', 'mlist', 'comment_ex',
          'skip', 'ellipsis', 'nws', 'blank', 'dict', 'none', 'ied', 'try', 'pv', 'while', 'with', 'raise_builtin', 'strrepr',
-         'float', 'tuple', 'printmulti', 'escstr', 'forval', 'ifval', 'onlyblank']
+         'float', 'tuple', 'printmulti', 'escstr', 'forval', 'ifval', 'onlyblank', 'ied_dot']
 
 
 def required_cells(tier):
@@ -126,6 +126,9 @@ def gen_example(rng, i, defined):
         src = ['T.append(%d)' % i]
     elif k == 'ied':
         src = ['boom(%d, "detail%d")  # doctest: +IGNORE_EXCEPTION_DETAIL' % (i, i)]
+    elif k == 'ied_dot':
+        # the real message holds a period, the documented detail differs and has none
+        src = ['boom(%d, "ratio must be below 1.5 (%d)")  # doctest: +IGNORE_EXCEPTION_DETAIL' % (i, i)]
     elif k == 'try':
         src = ['try:', '    boom(%d)' % i, 'except E:', '    emit(-%d)' % i]
     elif k == 'pv':
@@ -203,7 +206,7 @@ def make(seed):
                 if rng.random() < 0.5:
                     want.append('  File "<stdin>", line 1, in <module>')
                     feats.add('stack-lines')
-                if k == 'ied':
+                if k in ('ied', 'ied_dot'):
                     want.append('E: other detail')
                 else:
                     import traceback
@@ -299,7 +302,7 @@ def check_case(ctx, index, seed, doc_override=None):
         return
     ctx.evaluation()
     ctx.event('stdlib_doctest_passes')
-    if any(e['kind'] in ('for', 'def', 'if', 'try', 'while', 'with', 'raise', 'raise_multi', 'ied', 'raise_builtin')
+    if any(e['kind'] in ('for', 'def', 'if', 'try', 'while', 'with', 'raise', 'raise_multi', 'ied', 'ied_dot', 'raise_builtin')
            for e in examples) and len(doc.split('\n')) > len([e for e in examples]):
         ctx.nontrivial(doc)
 
